@@ -21,6 +21,12 @@ CFG = {
                    "file complete; for n <= m the content recovered under every name from the first n bytes is a prefix of the "
                    "one recovered from the first m bytes; for every file the recovered content is EXACTLY the concatenation of "
                    "its content bytes lying before the cut (`present`), for every cut position and all read sizes; "
+                   "encrypted archives end to end (writer, ANY cut of the wire, fail-safe decryptor, repair): C05_repair_encrypted_max (exactly the "
+                   "content present in what the decryptor delivers), C05_repair_encrypted_monotone - for cuts n <= m and every pair of modes except "
+                   "(unauthenticated at n, authenticated at m), in particular BOTH authenticated: every name's content at n is a prefix of its content at m, "
+                   "OR the shorter cut contains an exhibited forgery (EncAuth.Forgery: a window accepted under counter i whose ciphertext the writer did "
+                   "not produce for chunk i) - no unforgeability assumed; C05_example_auth_auth_forgery_disjunct_needed shows with a weak tag function "
+                   "that the disjunct cannot be dropped, C05_example_unauth_then_auth_not_monotone why the excluded pair is excluded; "
                    "correspondence and oracle as for C02 (byte counts against the generating plan)",
     "explanation_fscomp": 'compressed archives (props/C05.v): C05_fs_comp_monotone — a longer prefix of the wire gives a longer-or-equal output of the fail-safe decompression reader (prefix order), for any two runs (sources, read sizes, decoder emission schedules), from the law that D is monotone; C05_fs_comp_complete — with all blocks present the whole plaintext is delivered; C02_fs_comp_maximal — everything decodable from the available bytes is delivered (D4-D6).',
     "trusted_base": ["DecoderLaws (theories/CompFailSafeProofs.v), assumed of brotli's streaming decoder and observed on the real decoder by job c02-comp (fscomp.rs::check_laws, random input slices and output room): D x = maximal output decodable from the consumed bytes x, fin x = x is exactly one complete stream; fin [] = false; fin is prefix-free; D is monotone; a call consumes <= the input and produces <= the room; never consumes past the end of a complete stream; everything emitted so far is a prefix of D(consumed); ResultSuccess only with exactly one complete stream consumed and nothing pending; NeedsMoreInput only with all input consumed and (room exhausted or nothing pending); NeedsMoreOutput only with the room exhausted and something pending; ResultFailure never on bytes consistent with a complete stream. No assumption on how much one call emits otherwise.", 'the bytes after the last compressed block (SizesInfo footer) are `dead` for a fresh decoder: no output and no complete stream on any prefix (complete EMPTY streams inside the footer are covered by listing them as blocks); checked for every generated stream by c02-comp (tail_fail_at)'],
